@@ -39,11 +39,10 @@ Section AMap.
     | (k', v') :: r => if keqb k k' then (k, v) :: r else (k', v') :: aset r k v
     end.
 
-  Fixpoint adel (m : list (K * V)) (k : K) : list (K * V) :=
-    match m with
-    | [] => []
-    | (k', v') :: r => if keqb k k' then r else (k', v') :: adel r k
-    end.
+  (** remove (keys are unique in every reachable state; removing every occurrence makes the
+      lookup lemmas unconditional) *)
+  Definition adel (m : list (K * V)) (k : K) : list (K * V) :=
+    filter (fun p => negb (keqb k (fst p))) m.
 End AMap.
 
 Definition zget {V} := @aget Z V Z.eqb.
@@ -341,9 +340,13 @@ Definition pidx_on_remove (np : pstore) (px : list (Z * vindex)) (id key : Z) : 
   | None => px
   end.
 
-(** remove_node_from_property_indexes (fix 115f14a) *)
+(** remove_node_from_property_indexes (fix 115f14a): update_property_index_on_remove for every
+    indexed key (the keys of a hash map: each index is visited once) *)
 Definition pidx_remove_node (np : pstore) (px : list (Z * vindex)) (id : Z) : list (Z * vindex) :=
-  fold_left (fun acc key => pidx_on_remove np acc id key) (map fst px) px.
+  map (fun kx => (fst kx, match ps_get np id (fst kx) with
+                          | Some old => vindex_remove (snd kx) old id
+                          | None => snd kx
+                          end)) px.
 
 (** * Adjacency (adjacency.rs) *)
 
